@@ -277,11 +277,15 @@ var boundaryLens = []int{0, 0, 1, 2, 3, 7, 16, 127, 128, 255, 256, 257, 1000, 32
 
 func genBytes(r *Rng, maxLen int) []byte {
 	var n int
-	switch r.Intn(10) {
-	case 0, 1, 2:
-		n = boundaryLens[r.Intn(len(boundaryLens))]
-	case 3:
+	// long values are kept to about 8% of the strings: every case is written to the line protocol in hex
+	// (a thorough run with 30% long strings produced a 19 GB case file)
+	switch x := r.Intn(100); {
+	case x < 6:
+		n = boundaryLens[13+r.Intn(len(boundaryLens)-13)] // 32766 .. 70000
+	case x < 8:
 		n = r.Intn(70000)
+	case x < 30:
+		n = boundaryLens[r.Intn(13)] // 0 .. 1000
 	default:
 		n = r.Intn(40)
 	}
@@ -411,7 +415,7 @@ func runC12(c *Ctx) {
 	codec.Init()
 	cm := codec.GetCodecManager()
 	rng := NewRng(c.Seed)
-	per := c.Budget(200, 8000)
+	per := c.Budget(200, 2500)
 	id := 0
 	// registry: every kind must have a codec registered under the message's own type code
 	for _, kd := range c12Kinds {
